@@ -212,7 +212,13 @@ fn check_c07(cfg: &ChainCfg, h: &crate::chain::History, out: &mut RunOutcome) {
             Some(R::Da(r)) => r.advance(a, target),
             Some(R::Adam(r)) => r.advance(a, target),
         }
-        if reset_now {
+        // did a step-size search actually run in this call? (a second start state in the trajectory tap; a
+        // recoverable failure of the density at the search's start point skips it)
+        let search_ran = d.tap.iter().filter(|t| t.start).count() >= 2;
+        if reset_now && !search_ran {
+            out.probe("search_skipped_after_first_update", 1);
+        }
+        if reset_now && search_ran {
             // first transformation change: the search was re-run in this draw call
             // (the estimator is re-created from the found step size: bar = exp(ln(step)) up to rounding)
             if rel(bar, step) < 1e-12 || (is_last && ss.jitter.is_some()) {
@@ -237,7 +243,7 @@ fn check_c07(cfg: &ChainCfg, h: &crate::chain::History, out: &mut RunOutcome) {
             R::Da(r) => (r.adapted.exp(), if is_last { r.adapted.exp() } else { r.log_step.exp() }),
             R::Adam(r) => (r.log_step.exp(), r.log_step.exp()),
         };
-        if n > 0 || reset_now {
+        if n > 0 || (reset_now && search_ran) {
             if rel(ref_bar, bar) > 1e-8 {
                 out.violate(
                     format!("C07/averaged_step_size_differs_from_reference/{pname}"),
@@ -247,7 +253,7 @@ fn check_c07(cfg: &ChainCfg, h: &crate::chain::History, out: &mut RunOutcome) {
             }
             checked += 1;
         }
-        if !reset_now {
+        if !(reset_now && search_ran) {
             match ss.jitter {
                 None => {
                     if rel(ref_step, step) > 1e-8 {
@@ -477,7 +483,7 @@ impl Scenario for AdaptScenario {
     fn run(&self) -> RunOutcome {
         let mut cfg = self.cfg.clone();
         cfg.keep_evals = self.prop == "C08";
-        cfg.observe_math = false;
+        cfg.observe_math = self.prop == "C07";
         let h = run_chain(&cfg);
         let mut out = RunOutcome { digest: h.digest(), sim_draws: h.draws.len() as u64, sim_evals: h.n_evals, ..Default::default() };
         out.probe(&format!("preset_{}", cfg.preset.name()), 1);
